@@ -122,6 +122,45 @@ func checkC32(c *Ctx, r *Report) {
 			_, isP := v.(*ssa.Parameter)
 			return isP && typeName(v.Type()) == "core.DigestList" || mentions(v, func(w ssa.Value) bool { p, isP := w.(*ssa.Parameter); return isP && typeName(p.Type()) == "core.DigestList" }, 3)
 		}, "(origin/blobclient.ClusterClient).Stat", 1)
+		if !ok {
+			// the dependency loop extracted into a helper of the server: Put must lie in
+			// the success region of a call that hands the dependencies to a function
+			// whose every success return follows such a completed loop
+			isDeps := func(v ssa.Value) bool {
+				p, isP := v.(*ssa.Parameter)
+				return isP && typeName(p.Type()) == "core.DigestList"
+			}
+			for _, hc := range callsIn(fn) {
+				sf := hc.Instr.Common().StaticCallee()
+				if sf == nil || sf.Pkg != fn.Pkg || len(sf.Blocks) == 0 || !inSuccessRegion(hc.Instr, cs.Instr) {
+					continue
+				}
+				passes := false
+				for _, a := range hc.Instr.Common().Args {
+					if isDeps(a) {
+						passes = true
+					}
+				}
+				if !passes {
+					continue
+				}
+				all, n := true, 0
+				for _, ret := range returnsOf(sf) {
+					if classifyReturn(ret) == RetFailure {
+						continue
+					}
+					n++
+					if okh, _ := depLoopBefore(sf, ret, func(v ssa.Value) bool {
+						return isDeps(v) || mentions(v, isDeps, 3)
+					}, "(origin/blobclient.ClusterClient).Stat", 1); !okh {
+						all = false
+					}
+				}
+				if all && n > 0 {
+					ok, why = true, "dependency loop in "+funcName(sf)+", Put in its success region"
+				}
+			}
+		}
 		r.Check(ok, r1, fn, "Store.Put after dependency check", cs.Instr, why, "a tag is stored although not every dependency blob was confirmed present in the origin cluster: "+why)
 	}
 	if h := r.MustFunc(r1, "(*"+pkgTagSrv+".Server).putTagHandler"); h != nil {
@@ -147,6 +186,7 @@ func checkC32(c *Ctx, r *Report) {
 	}
 
 	r2 := r.Rule("R2", "E-ORDER/ok", "tagStore.Put: disk write → persist flag (NewPersist(true)) → write-back strategy, each in the success region of the previous; the strategy field is assigned on both configuration branches and the write-through one calls SyncExec", 2)
+	inlineStrategy := false
 	if put := r.MustFunc(r2, "(*"+pkgTagStore+".tagStore).Put"); put != nil {
 		wr := callsInNamed(put, "(*"+pkgTagStore+".tagStore).writeTagToDisk")
 		var sets []*CallSite
@@ -162,8 +202,55 @@ func checkC32(c *Ctx, r *Report) {
 				strat = append(strat, ci)
 			}
 		})
+		if len(wr) == 0 {
+			// the disk write written inline: the create-only call itself
+			for _, cs := range callsIn(put) {
+				if lastSeg(cs.Callee) == "CreateCacheFile" {
+					wr = append(wr, cs)
+				}
+			}
+		}
+		if len(strat) == 0 && len(wr) == 1 && len(sets) == 1 {
+			// the strategy written inline: SyncExec on the write-through side, Add on
+			// the other, both after the persist flag; success only after one succeeded
+			inlineStrategy = true
+			se := callsInNamed(put, "(lib/persistedretry.Manager).SyncExec")
+			ad := callsInNamed(put, "(lib/persistedretry.Manager).Add")
+			okI := len(se) == 1 && len(ad) == 1 && inSuccessRegion(wr[0].Instr, sets[0].Instr, "os.IsExist")
+			wt := func(want bool) FactFn {
+				return func(cond ssa.Value, val bool) int {
+					if isPureLoadOf(cond, pkgTagStore+".Config.WriteThrough") {
+						return tern(val == want, 1, -1)
+					}
+					return 0
+				}
+			}
+			if okI {
+				okI = inSuccessRegion(sets[0].Instr, se[0].Instr) && inSuccessRegion(sets[0].Instr, ad[0].Instr) &&
+					guardedBy(se[0].Instr, wt(true)) && guardedBy(ad[0].Instr, wt(false))
+			}
+			if okI {
+				n, bad := 0, 0
+				forEachPath(put, 5000, func(p Path) {
+					ret := p.ret()
+					if ret == nil || classifyReturn(ret) == RetFailure {
+						return
+					}
+					n++
+					if !(p.succeeded(se[0].Instr) || p.succeeded(ad[0].Instr)) {
+						bad++
+					}
+				})
+				okI = n > 0 && bad == 0
+			}
+			r.Check(okI, r2, put, "write → persist → write-back", nil, "ordered and error-checked (strategy inline)", "tagStore.Put does not perform disk write, persist flag and write-back scheduling in this order with each step checked")
+			r.Check(okI, r2, nil, "strategy on both branches", nil, "SyncExec on the write-through side, Add on the other", "the inline write-back strategy does not cover both configuration branches")
+		}
 		ok := len(wr) == 1 && len(sets) == 1 && len(strat) == 1 &&
-			inSuccessRegion(wr[0].Instr, sets[0].Instr) && inSuccessRegion(sets[0].Instr, strat[0])
+			inSuccessRegion(wr[0].Instr, sets[0].Instr, "os.IsExist") && inSuccessRegion(sets[0].Instr, strat[0])
+		if inlineStrategy {
+			ok = false
+		}
 		if ok {
 			// success return is the strategy's result
 			for _, ret := range returnsOf(put) {
@@ -175,7 +262,9 @@ func checkC32(c *Ctx, r *Report) {
 				}
 			}
 		}
-		r.Check(ok, r2, put, "write → persist → write-back", nil, "ordered and error-checked", "tagStore.Put does not perform disk write, persist flag and write-back scheduling in this order with each step checked")
+		if !inlineStrategy {
+			r.Check(ok, r2, put, "write → persist → write-back", nil, "ordered and error-checked", "tagStore.Put does not perform disk write, persist flag and write-back scheduling in this order with each step checked")
+		}
 	}
 	// strategy assignment
 	nst := 0
@@ -205,18 +294,35 @@ func checkC32(c *Ctx, r *Report) {
 	if as := c.Func("(*" + pkgTagStore + ".tagStore).asyncWriteBackStrategy"); as != nil {
 		okAS = len(callsInNamed(as, "(lib/persistedretry.Manager).Add")) == 1
 	}
-	r.Check(nst == 2 && okWT && okAS, r2, nil, "strategy on both branches", nil, "assigned twice; write-through = SyncExec (success only if it succeeded); async = Add",
+	if !inlineStrategy {
+		r.Check(nst == 2 && okWT && okAS, r2, nil, "strategy on both branches", nil, "assigned twice; write-through = SyncExec (success only if it succeeded); async = Add",
 		fmt.Sprintf("write-back strategy is not assigned on both configuration branches (stores=%d) or write-through is not a checked SyncExec (%v) / async not an Add (%v)", nst, okWT, okAS))
+	}
 
 	r3 := r.Rule("R3", "E-OWN", "the tag store creates tag files only through CreateCacheFile and tolerates 'exists' without overwriting; no other creating/moving store call is made with a tag name", 1)
-	if wd := r.MustFunc(r3, "(*"+pkgTagStore+".tagStore).writeTagToDisk"); wd != nil {
+	// the function of the tag store that creates the tag file (a helper, or Put itself)
+	var wd *ssa.Function
+	for _, fn := range c.FuncsIn(pkgTagStore) {
+		if c.isFixture(fn) {
+			continue
+		}
+		for _, cs := range callsIn(fn) {
+			if lastSeg(cs.Callee) == "CreateCacheFile" {
+				wd = fn
+			}
+		}
+	}
+	if wd == nil {
+		r.Unresolved(r3, "no function of the tag store calls CreateCacheFile")
+	} else {
+		r.Analysed(wd)
 		creates := 0
 		ok := true
 		for _, cs := range callsIn(wd) {
 			switch lastSeg(cs.Callee) {
 			case "CreateCacheFile":
 				creates++
-			case "MoveUploadFileToCache", "SetCacheFileMetadata", "DeleteCacheFile", "WriteCacheFile":
+			case "MoveUploadFileToCache", "DeleteCacheFile", "WriteCacheFile":
 				ok = false
 			}
 		}
@@ -262,6 +368,62 @@ func checkC32(c *Ctx, r *Report) {
 			}, 3)
 		})
 		ok := len(order) == 2 && containsStr(order[0], "resolveFromDisk") && containsStr(order[1], "resolveFromBackend")
+		if !ok && len(order) == 0 {
+			// written as direct calls: every call that reaches the backend is
+			// preceded by a call that reads the local cache
+			isDisk := func(f *ssa.Function) bool {
+				if f == nil {
+					return false
+				}
+				hit := false
+				instrsDeep(f, 1, func(_ *ssa.Function, in ssa.Instruction) {
+					if ci, isC := in.(ssa.CallInstruction); isC && lastSeg(calleeName(ci.Common())) == "GetCacheFileReader" {
+						hit = true
+					}
+				})
+				return hit
+			}
+			isBackend := func(f *ssa.Function) bool {
+				if f == nil {
+					return false
+				}
+				hit := false
+				instrsDeep(f, 1, func(_ *ssa.Function, in ssa.Instruction) {
+					if ci, isC := in.(ssa.CallInstruction); isC && lastSeg(calleeName(ci.Common())) == "Download" {
+						hit = true
+					}
+				})
+				return hit
+			}
+			var disk, back []ssa.Instruction
+			for _, cs := range callsIn(get) {
+				sf := cs.Instr.Common().StaticCallee()
+				if sf == nil || sf.Pkg != get.Pkg {
+					continue
+				}
+				switch {
+				case isBackend(sf):
+					back = append(back, cs.Instr)
+				case isDisk(sf):
+					disk = append(disk, cs.Instr)
+				}
+			}
+			ok = len(disk) > 0 && len(back) > 0
+			for _, b := range back {
+				pre := false
+				for _, d := range disk {
+					if precedes(d, b) {
+						pre = true
+					}
+				}
+				if !pre {
+					ok = false
+				}
+			}
+			if ok {
+				order = map[int64]string{0: "disk resolver call", 1: "backend resolver call"}
+			}
+		}
 		r.Check(ok, r4, get, "disk before backend", nil, fmt.Sprintf("%v", order), fmt.Sprintf("resolver order is not disk then backend: %v", order))
 	}
 }
